@@ -9,6 +9,7 @@ import (
 	"encoding/json"
 	"fmt"
 	"os"
+	"path/filepath"
 	"sort"
 	"strconv"
 )
@@ -103,6 +104,8 @@ func (w *ndWriter) Close() error {
 	}
 	return w.f.Close()
 }
+
+func filepathGlob(p string) ([]string, error) { return filepath.Glob(p) }
 
 func writeFile(path string, b []byte) error { return os.WriteFile(path, b, 0o644) }
 
